@@ -3178,6 +3178,9 @@ class FST:
 
                 self._offset(*params_offset, False, True, self_=False)
 
+                if end_ln != ln:  # the offset (and its cache flush) is done from the end of the span, if the span covered more than one line then a trailing line comment or closing parentheses of nodes which end on the earlier lines of the span changed as well and those are part of cached `bloc` and `pars()`, so flush everything below
+                    self._touchall(False, False, True)
+
         elif action is None:
             self._put_src(put_lines, ln, col, end_ln, end_col)
             self._touchall(True, True, False)  # touch parents to clear bloc caches because comment on last child statement is included in parent bloc, include self_ just to be sure
